@@ -124,13 +124,30 @@ ObsKind(h) ==
     [] h.status = 206 -> "single"
     [] OTHER -> "other"
 
-HeadMatchesShape(L, sh, h) ==
+\* byte length of a part header, recomputed from decimal widths (blen: boundary length,
+\* hl: bytes of the entity's header lines inside each part)
+PartHeaderLen(a, b, L, blen, hl) ==
+  2 + 2 + blen + 2 + 21 + Width(a) + 1 + Width(b) + 1 + Width(L) + 2 + hl + 2
+TrailerLen(blen) == 2 + 2 + blen + 2 + 2
+
+\* exact length of the multipart body for parts R, with u64 overflow detection
+RECURSIVE MultipartLen(_, _, _, _)
+MultipartLen(R, i, L, hl) ==
+  IF i > Len(R) THEN [v |-> N(TrailerLen(1)), of |-> FALSE]
+  ELSE LET rest == MultipartLen(R, i + 1, L, hl)
+           s == Add(Add(rest.v, N(PartHeaderLen(R[i].a, R[i].b, L, 1, hl))), Size(R[i].a, R[i].b))
+       IN IF rest.of \/ ~IsU64(s) THEN [v |-> Zero, of |-> TRUE] ELSE [v |-> s, of |-> FALSE]
+
+\* (a multipart body whose exact length does not fit in 64 bits cannot be announced; the code
+\* answers 413, which C13 lists; C03 accepts it in exactly that situation)
+HeadMatchesShape(L, sh, h, ent) ==
   CASE sh.k = "full" -> ObsKind(h) = "full"
     [] sh.k = "unsat" -> h.status = 416 /\ h.cr.k = "unsat" /\ h.cr.l = L
     [] sh.k = "single" -> /\ ObsKind(h) = "single" /\ h.cr.k = "range"
                           /\ h.cr.a = sh.parts[1].a /\ h.cr.b = sh.parts[1].b /\ h.cr.l = L
     [] sh.k = "multi" -> \/ ObsKind(h) = "multi" /\ ~MustNotMultipart(L, sh.parts)
                          \/ ObsKind(h) = "full" /\ ~MustMultipart(L, sh.parts)
+                         \/ h.status = 413 /\ \E hl \in {0, ent.hl} : MultipartLen(sh.parts, 1, L, hl).of
 
 MethodOK(req) == req.mclass \in {"get", "head"}
 
@@ -156,7 +173,7 @@ C03_Domain(req) == /\ MethodOK(req) /\ NoCond(req.abs) /\ RangeClaimed(req)
 C03_Head(req, h) ==
   C03_Domain(req) =>
      \E r \in RangeReadings(req.abs.range) :
-         HeadMatchesShape(req.ent.len, ShapeOf(req.ent.len, r), h)
+         HeadMatchesShape(req.ent.len, ShapeOf(req.ent.len, r), h, req.ent)
 
 C04_Head(req, h) ==
   Decided(req) =>
@@ -168,7 +185,7 @@ C05_Head(req, h) ==
      /\ (IfRangeVerdict(req.abs, req.ent) = "no") => (h.status = 200 /\ h.cr.k = "none")
      /\ (IfRangeVerdict(req.abs, req.ent) = "yes" /\ RangeClaimed(req) /\ ~IsZero(req.ent.len)) =>
            \E r \in RangeReadings(req.abs.range) :
-               HeadMatchesShape(req.ent.len, ShapeOf(req.ent.len, r), h)
+               HeadMatchesShape(req.ent.len, ShapeOf(req.ent.len, r), h, req.ent)
 
 C01_Head(req, h) ==
   /\ (h.status \in {200, 206}) => h.cl.k = "num"
@@ -376,11 +393,6 @@ Observe(bs, p, isGet) ==
 (***************************************************************************)
 D(r, n) == [t |-> "D", r |-> r, n |-> n]
 
-\* byte length of a part header, recomputed from decimal widths
-PartHeaderLen(a, b, L, blen, hl) ==
-  2 + 2 + blen + 2 + 21 + Width(a) + 1 + Width(b) + 1 + Width(L) + 2 + hl + 2
-TrailerLen(blen) == 2 + 2 + blen + 2 + 2
-
 \* expected complete token sequence of a multipart body (data sizes must be small: drained)
 RECURSIVE MultipartTokens(_, _, _, _, _)
 MultipartTokens(R, i, L, blen, eh) ==
@@ -505,12 +517,7 @@ ImplEstimateOK(L, R) ==
   LET s == SumSizes(R, 1, PartEstimate) IN ~s.of /\ Lt(s.v, L)
 
 \* multipart body length as prepare_multipart computes it (boundary "B")
-RECURSIVE ImplMultipartLen(_, _, _, _)
-ImplMultipartLen(R, i, L, hl) ==
-  IF i > Len(R) THEN [v |-> N(TrailerLen(1)), of |-> FALSE]
-  ELSE LET rest == ImplMultipartLen(R, i + 1, L, hl)
-           s == Add(Add(rest.v, N(PartHeaderLen(R[i].a, R[i].b, L, 1, hl))), Size(R[i].a, R[i].b))
-       IN IF rest.of \/ ~IsU64(s) THEN [v |-> Zero, of |-> TRUE] ELSE [v |-> s, of |-> FALSE]
+ImplMultipartLen(R, i, L, hl) == MultipartLen(R, i, L, hl)
 
 \* The head the code produces for a request whose headers are all absent or well-formed and
 \* whose Range (if any) is a clean set or ignored.  `now` in seconds.
